@@ -422,6 +422,7 @@ def spawn_env_rule(prog, chk):
                  "the export loop of compose_std_command hands array variables to Command::env too (no is_array() test on the way): `declare -ax a=(1 2); env` shows a=1 "
                  "in the child (bash: arrays are not exported)")
     declare_on_readonly_rule(prog, chk)
+    attribute_removal_rule(prog, chk)
 
 
 def _switch_after(b, c, bb):
@@ -555,3 +556,47 @@ def declare_on_readonly_rule(prog, chk):
                  "process_declaration reaches %s on a path that carries a value but has not tested is_readonly: the declaration is half applied to a readonly variable" % bad[0])
     else:
         chk.ok("R9.6", "readonly-test-precedes-attribute-changes", "%d attribute changes / conversions are reached only past the readonly test or on the no-value edge" % len(pre), function=PD)
+
+
+def attribute_removal_rule(prog, chk):
+    """R9.7: "attributes shape every later assignment". The case attributes -c / -l / -u share one slot (the update transform); removing
+    one of them (`declare +u v`) may clear the slot only if that very transform is the one in it. In
+    DeclareCommand::apply_attributes_before_update every set_update_transform(None) is reached only over the matching edge of a test of
+    get_update_transform(); the three handlers are siblings and must agree. An unconditional reset makes `declare +u v` strip `-l`."""
+    chk.rule("R9.7", "declare +c/+l/+u: the update transform is reset to None only under a test that the transform being removed is the one set")
+    AB = "brush_builtins::declare::DeclareCommand::apply_attributes_before_update"
+    b = prog.impl_body(AB)
+    if not chk.anchor("R9.7", AB, b):
+        return
+    c = cfg_of(b)
+    d = defs_of(b)
+    gets = [(bb, t) for bb, t in b.calls() if (t.best_callee() or "").endswith("ShellVariable::get_update_transform")]
+    n = 0
+    for bb, t in b.calls():
+        if not (t.best_callee() or "").endswith("ShellVariable::set_update_transform") or len(t.args) < 2:
+            continue
+        is_none = any(o.kind == 'agg' and o.node.variant == "None" for o in origins(b, d, t.args[1]))
+        if not is_none:
+            continue
+        n += 1
+        ok = False
+        for gb, gt in gets:
+            if not c.dominates(gb, bb) or gt.target is None:
+                continue
+            sw = b.blocks[gt.target].term
+            if sw.kind != "switch":
+                continue
+            from rulelib import resolve_bool_arm
+            # `matches!(x, P)` stores a bool in each arm and switches on it afterwards: resolve that second switch per arm
+            specific = [resolve_bool_arm(b, tg) for v, tg in sw.targets]
+            other = resolve_bool_arm(b, sw.otherwise)
+            if any(bb == s or bb in c.reachable_from(s, avoid=[gt.target]) for s in specific) \
+                    and not (bb == other or bb in c.reachable_from(other, avoid=[gt.target] + specific)):
+                ok = True
+        if ok:
+            chk.ok("R9.7", "reset-guarded@line%s" % t.line, "set_update_transform(None) only on the matching edge of get_update_transform()", function=AB)
+        else:
+            chk.fail("R9.7", AB, "transform-reset-unconditional",
+                     "apply_attributes_before_update resets the update transform to None (line %s) without testing that the attribute being removed is the one in effect: "
+                     "`declare -l v; declare +u v` strips -l, later assignments are no longer lower-cased" % t.line)
+    chk.floor("R9.7", "transform resets in apply_attributes_before_update", n, 3)
